@@ -77,6 +77,7 @@ func C13(c *Ctx) error {
 		spec{gen.InteropCorpus(0), "ts_interop_corpus"},
 		spec{gen.GenNestedAnnot(n+4, true), "nested_annotations"},
 		spec{gen.GenFeaturePairs(n + 5), "feature_pairs"},
+		spec{basePathVariable(n + 6), "base_path_variable"},
 		spec{postQueryOnly(n + 2), "post_query_only"})
 	// whatever the plugins accept must build: the rule-breaking fragments of C12 (refused today) at
 	// every placement; a validator that stops refusing one of them must not let uncompilable code out
@@ -327,6 +328,29 @@ func postQueryOnly(idx int) *ir.Request {
 		{Name: "Create", Input: P + "CreateReq", Output: P + "Reply", Config: &ir.HTTPConfig{Path: "/items", Method: "POST"}},
 		{Name: "Update", Input: P + "UpdateReq", Output: P + "Reply", Config: &ir.HTTPConfig{Path: "/items/update", Method: "PUT"}},
 		{Name: "Default", Input: P + "CreateReq", Output: P + "Reply"},
+	}}}
+	return &ir.Request{Files: []*ir.File{f}, Generate: []string{f.Name}}
+}
+
+// basePathVariable: a service whose base path carries a variable, with bodiless routes that have no
+// variable of their own and only query parameters, one with its own variable, and a body route.
+func basePathVariable(idx int) *ir.Request {
+	pkg := "bp.v1"
+	P := "." + pkg + "."
+	q := func(n string) ir.Ann { return ir.Ann{Query: &ir.Query{Name: n}} }
+	f := &ir.File{Name: fmt.Sprintf("bp%d/api.proto", idx), Package: pkg, GoPackage: "example.com/gen/bp/v1;bpv1"}
+	f.Messages = []*ir.Message{
+		{Name: "ListReq", Fields: []*ir.Field{{Name: "page", Number: 1, Kind: "int32", Ann: q("page")}, {Name: "role", Number: 2, Kind: "string", Ann: q("role")}}},
+		{Name: "DropReq", Fields: []*ir.Field{{Name: "force", Number: 1, Kind: "bool", Ann: q("force")}}},
+		{Name: "GetReq", Fields: []*ir.Field{{Name: "member_id", Number: 1, Kind: "string"}, {Name: "verbose", Number: 2, Kind: "bool", Ann: q("verbose")}}},
+		{Name: "AddReq", Fields: []*ir.Field{{Name: "name", Number: 1, Kind: "string"}}},
+		{Name: "Reply", Fields: []*ir.Field{{Name: "ok", Number: 1, Kind: "bool"}}},
+	}
+	f.Services = []*ir.Service{{Name: "Members", BasePath: "/orgs/{org_id}", Methods: []*ir.Method{
+		{Name: "List", Input: P + "ListReq", Output: P + "Reply", Config: &ir.HTTPConfig{Path: "/members", Method: "GET"}},
+		{Name: "DropAll", Input: P + "DropReq", Output: P + "Reply", Config: &ir.HTTPConfig{Path: "/members", Method: "DELETE"}},
+		{Name: "Get", Input: P + "GetReq", Output: P + "Reply", Config: &ir.HTTPConfig{Path: "/members/{member_id}", Method: "GET"}},
+		{Name: "Add", Input: P + "AddReq", Output: P + "Reply", Config: &ir.HTTPConfig{Path: "/members", Method: "POST"}},
 	}}}
 	return &ir.Request{Files: []*ir.File{f}, Generate: []string{f.Name}}
 }
